@@ -286,7 +286,7 @@ pub fn check(case: &Case, info: &mut CaseInfo) -> Result<(), Fail> {
 pub fn run(ctx: &Ctx, rep: &mut Report) {
     let (n, steps) = match ctx.tier {
         Tier::Quick => (160, 16),
-        Tier::Thorough => (200, 40),
+        Tier::Thorough => (400, 40),
     };
     run_prop(ctx, rep, "attach", case_strategy(steps), n, 40, check);
     let n_client = match ctx.tier {
